@@ -115,6 +115,8 @@ inline const char* sim_event_name(int k) {
         case sim::EV_SIGNAL: return "signal";
         case sim::EV_CLOCKJUMP: return "clock-jump";
         case sim::EV_SLEEP: return "sleep";
+        case sim::EV_FUTEX_WAIT: return "block(futex)";
+        case sim::EV_FUTEX_WAKE: return "futex-wake";
     }
     return hx::event_name(k);
 }
